@@ -11,6 +11,7 @@ import (
 	"github.com/AdguardTeam/urlfilter/filterlist"
 	"github.com/AdguardTeam/urlfilter/rules"
 	shim "github.com/AdguardTeam/urlfilter/verifshim"
+	"github.com/AdguardTeam/urlfilter/verifshim/vsyncutil"
 
 	"verif/ev"
 	"verif/scen"
@@ -25,7 +26,7 @@ import (
 // evaluation on a held result, or an environment step on the pool.
 
 var c13Lists = []scen.ListSpec{
-	{ID: 1, Text: "! list A\n||example.org^\n||example.org/ads\n||ads.example.com^\n/ex[a-z]+le\\.net/\n/ad$domain=example.org\n@@||example.org^$generichide\n##.g1\nexample.org##.s1\nexample.org#@#.g2\n##.g2\n/(/\n@@||docsite.test^$document\nmetrics.example.com^\n||cdn.test/blocked.js\n@@||news.example.org/reader/$urlblock\n||tracker.test^\n~other.net##.g3\n"},
+	{ID: 1, Text: "! list A\n||example.org^\n||example.org/ads\n||ads.example.com^\n/ex[a-z]+le\\.net/\n/ad$domain=example.org\n@@||example.org^$generichide\n##.g1\nexample.org##.s1\nexample.org#@#.g2\n##.g2\n/(/\n@@||docsite.test^$document\nmetrics.example.com^\n||cdn.test/blocked.js\n@@||news.example.org/reader/$urlblock\n||tracker.test^\n~other.net##.g3\n##.u1\n##.u2\n##.u3\n##.u4\n"},
 	{ID: 2, Text: "# list B\n0.0.0.0 example.org\n:: example.org\n127.0.0.1 hosts.test alias.test\n||blocked.test^$client=10.0.0.1\n||tagged.test^$ctag=pc\n||tagged.test^$dnstype=AAAA,important\n||rw.test^$dnsrewrite=1.2.3.4\n||rw.test^$dnsrewrite=2.3.4.5\n@@||rw.test^$dnsrewrite=1.2.3.4\n||rw.test^$dnsrewrite=NOERROR;MX;10 mx.test\n@@||rw.test^$dnsrewrite=NOERROR;MX;10 mx.test\n/h[o0]sts\\.test/\n"},
 	{ID: -3, Text: "||blocked.test^$ctag=~pc\n@@||ads.example.com^$script\n||example.org^$third-party\n"},
 }
@@ -115,7 +116,7 @@ func (m *c13Model) violate(pred string, sig map[string]any, what string, hist []
 func (m *c13Model) run(hist []int) statespace.Outcome {
 	e, st, _ := scen.Build(c13Lists, m.file)
 	defer st.Close()
-	pool, _ := urlfilter.VerifDNSPool(e.DNS).(*shim.Pool[rules.Request])
+	pool, _ := urlfilter.VerifDNSPool(e.DNS).(*vsyncutil.Pool[rules.Request])
 	held := map[int]*c13Held{}
 	obs := ""
 	for i, oi := range hist {
@@ -134,7 +135,7 @@ func (m *c13Model) run(hist []int) statespace.Outcome {
 }
 
 // step applies one operation.
-func (m *c13Model) step(e *scen.Engines, pool *shim.Pool[rules.Request], held map[int]*c13Held, op c13Op, oi int, last bool, hist []int, obs string) string {
+func (m *c13Model) step(e *scen.Engines, pool *vsyncutil.Pool[rules.Request], held map[int]*c13Held, op c13Op, oi int, last bool, hist []int, obs string) string {
 	{
 		switch {
 		case op.query != nil:
@@ -218,7 +219,7 @@ func (m *c13Model) step(e *scen.Engines, pool *shim.Pool[rules.Request], held ma
 }
 
 // finish computes the canonical key of the hidden state.
-func (m *c13Model) finish(e *scen.Engines, st *filterlist.RuleStorage, pool *shim.Pool[rules.Request], held map[int]*c13Held, obs string) statespace.Outcome {
+func (m *c13Model) finish(e *scen.Engines, st *filterlist.RuleStorage, pool *vsyncutil.Pool[rules.Request], held map[int]*c13Held, obs string) statespace.Outcome {
 	var sb strings.Builder
 	keys := filterlist.VerifCacheKeys(st)
 	for _, k := range keys {
